@@ -212,16 +212,22 @@ func runC17(p *Prog, r *Report, tier string) {
 			fmt.Sprintf("InitGenesis does not store genState.%s into region %s (values written there: %v)", f, region, vals))
 		if strings.HasSuffix(f, "List") {
 			// every element: the stored value is the loop element, and the loop ranges over the whole list
-			each := false
-			for _, v := range vals {
-				if v == "k.cdc.MustMarshal(&p2."+f+"[#i0])" {
-					each = true
+			// (the loop may live in InitGenesis, counter #i0, or in a new helper, counter #^i0)
+			each, whole := false, false
+			for _, ctr := range []string{"#i0", "#^i0"} {
+				e, w := false, false
+				for _, v := range vals {
+					if v == "k.cdc.MustMarshal(&p2."+f+"["+ctr+"])" {
+						e = true
+					}
 				}
-			}
-			whole := false
-			for _, ii := range ci.ifs {
-				if ii.atom.Key == "(#i0 < len(p2."+f+"))" {
-					whole = true
+				for _, ii := range ci.ifs {
+					if ii.atom.Key == "("+ctr+" < len(p2."+f+"))" {
+						w = true
+					}
+				}
+				if e && w {
+					each, whole = true, true
 				}
 			}
 			r.check(each && whole, "field-coverage", "field-coverage/init-every-element/"+f, ci.pos(), "every element of genState."+f+" is stored",
@@ -337,16 +343,15 @@ func runC17(p *Prog, r *Report, tier string) {
 		in     ssa.Instruction
 	}
 	var lookups, updates []mapUse
-	for _, b := range vf.Blocks {
-		for _, in := range b.Instrs {
-			switch in := in.(type) {
-			case *ssa.Lookup:
-				if _, ok := in.X.Type().Underlying().(*types.Map); ok {
-					lookups = append(lookups, mapUse{cv.term(in.X, in), cv.term(in.Index, in), in})
-				}
-			case *ssa.MapUpdate:
-				updates = append(updates, mapUse{cv.term(in.Map, in), cv.term(in.Key, in), in})
+	hc := strings.NewReplacer("#^i0", "#i0") // the loop may live in a new helper
+	for _, in := range cv.vinstrs() {
+		switch in := in.(type) {
+		case *ssa.Lookup:
+			if _, ok := in.X.Type().Underlying().(*types.Map); ok {
+				lookups = append(lookups, mapUse{cv.term(in.X, in), hc.Replace(cv.term(in.Index, in)), in})
 			}
+		case *ssa.MapUpdate:
+			updates = append(updates, mapUse{cv.term(in.Map, in), hc.Replace(cv.term(in.Key, in)), in})
 		}
 	}
 	mapOwner := map[string]string{}
@@ -389,7 +394,7 @@ func runC17(p *Prog, r *Report, tier string) {
 			r.fail("dup-detection", "dup-detection/"+list+"/fresh-map", p.instrPos(up[0].in), "index map is not a fresh local map")
 		}
 		// a hit rejects: success return is cut by "no hit", and the hit arm is an error exit
-		hit := lk[0].m + "[" + key + "]#1"
+		hit := cv.term(lk[0].in.(*ssa.Lookup), lk[0].in) + "#1"
 		if lookup := lk[0].in.(*ssa.Lookup); !lookup.CommaOk {
 			// map[string]bool form: `if seen[key] {dup}; seen[key] = true` — the element itself is
 			// the hit flag, which requires the inserted value to be the constant true
@@ -405,7 +410,7 @@ func runC17(p *Prog, r *Report, tier string) {
 		// the loop ranges over the whole list: header test is index < len(list)
 		full := false
 		for _, ii := range cv.ifs {
-			if ii.atom.Key == "(#i0 < len(p0."+list+"))" {
+			if ii.atom.Key == "(#i0 < len(p0."+list+"))" || ii.atom.Key == "(#^i0 < len(p0."+list+"))" {
 				full = true
 			}
 		}
